@@ -488,7 +488,7 @@ def swap_streams(ck: Check) -> None:
         ck.count(f"swap_bfs_sources_n{n}", len(sources))
     # ---- random pairs up to length 200; sometimes p1 = arbitrary pairwise different keys
     for _ in range(1500 if quick else 8000):
-        n = rng.choice([1, 2, 3, 4, 5, 6, 7, 8, 9, 10, 11, 12, 16, 33, 64, 100, 200])
+        n = rng.choice([1, 2, 3, 4, 5, 6, 7, 8, 9, 10, 11, 12, 16, 33, 64, 100, 127, 128, 129, 200, 256, 257])
         p1 = list(range(n))
         rng.shuffle(p1)
         p2 = list(p1)
@@ -502,10 +502,14 @@ def swap_streams(ck: Check) -> None:
         elif kind == "cycle":
             k = rng.randrange(n)
             p2 = p2[k:] + p2[:k]
-        v = int(swap_distance(np.array(p1, dtype=np.int64), np.array(p2, dtype=np.int64)))
+        # permutations arrive in the integer type of their space (int8 up to 127 elements, ...): every storage type
+        dt = rng.choice([t for t, lim in ((np.int8, 127), (np.uint8, 255), (np.int16, 32767), (np.int32, 2**31 - 1),
+                                          (np.int64, 2**63 - 1)) if n - 1 <= lim])
+        v = int(swap_distance(np.array(p1, dtype=dt), np.array(p2, dtype=dt)))
         ops.append(f"o1S {fmt_ints(p1)} ; {fmt_ints(p2)}")
         meta.append(("pair", n, v, p1, p2))
         ck.count("swap_random_" + kind)
+        ck.count("swap_dtype_" + np.dtype(dt).name)
     eval_swap_ops(ck, ops, meta)
 
 
